@@ -102,7 +102,12 @@ class C01:
     RULE = ("random construction programs on one circuit (1-8 modes, up to 40 calls): bs both conventions / reversed / default mode_2, "
             "ps, loss, barrier, mode_swaps, Unitary blocks added ungrouped, bs/ps with loss=; values from tables with rational "
             "amplitudes (incl. 0 and 1) for the model run, arbitrary rationals for oracle-only programs; malformed stream "
-            "(out-of-range modes, equal bs modes, invalid reflectivity/loss, incomplete swaps, oversize blocks). "
+            "(out-of-range modes, equal bs modes, invalid reflectivity/loss, incomplete swaps, oversize blocks); Parameter-valued "
+            "scenarios (values updated after a frozen and a plain copy); call-form scenarios (defaults bs(m) / loss(m) / barrier() / add(sub), "
+            "positional and keyword arguments, int and numpy-float values incl. exactly 0 and 1, phases far outside (-pi, pi], int- and "
+            "float-typed and labelled blocks, grouped blocks, sub-circuits of primitives, empty and identity swap dictionaries, single-mode "
+            "circuits, rejected calls in between, the caller's dict / list / array overwritten afterwards) with U_full AND U read in the "
+            "middle of the construction, twice, the returned arrays overwritten by the caller. "
             "Non-trivial = >= 3 accepted components of >= 2 kinds; distinct = distinct program JSON")
     COQ_TARGETS = ["theories/Exec/RunCircuit.vo"]
     CHUNK = 60
@@ -127,6 +132,10 @@ class C01:
         # components added to circuits that already contain heralded sub-circuits (user modes skip ancillas)
         for i in range(n // 4):
             cases.append(dict(kind="tree", model=True, prog=cg.gen_tree_program(rng, tier, loss_p=0.6, max_leaves=2)))
+        # call forms / defaults / boundary values / reads in the middle of the construction (oracle only;
+        # drawn last so that the cases above are the same as before for a given seed)
+        for i in range(n if tier == "quick" else n // 3):
+            cases.append(dict(kind="forms", model=False, seed=rng.randrange(10**9)))
         return cases
 
     def _param_scenario(self, seed):
@@ -218,6 +227,9 @@ class C01:
                 return f"{what}: leading block of U_full is not the ordered product of the components at their current values"
             if not np.allclose(Uf @ Uf.conj().T, np.eye(Uf.shape[0]), atol=1e-9):
                 return f"{what}: U_full is not unitary"
+            U = np.array(circ.U)
+            if U.shape != (n, n) or not np.allclose(U, product(values), atol=1e-9):
+                return f"{what}: Circuit.U is not the ordered product of the components at their current values"
             return None
 
         msg = check(c, old, "as built")
@@ -235,9 +247,340 @@ class C01:
                 or check(plain, new, "plain copy after the update")
                 or check(frozen, old, "frozen copy after the update"))
 
+    # ------------------------------------------------------------------ call forms, defaults, boundary values, read histories
+    def _forms_scenario(self, seed):
+        """One circuit built through the call forms the table-driven programs never use: defaults (bs(m) = 50:50 'Rx' on
+        m, m+1; loss(m) = an element with loss 0; barrier(); add(sub) at mode 0), positional / keyword arguments, int and
+        numpy-float values (0 and 1 exactly), phases far outside (-pi, pi], real- and int-typed unitary blocks, labelled
+        blocks, grouped blocks, sub-circuits of primitives, empty / identity swap dictionaries, empty barriers, rejected
+        calls in between.  U_full and U are read in the middle of the construction (more than once, and the arrays that
+        were handed out are overwritten by the caller); every read is compared with the running product computed from the
+        abstract components of the case."""
+        import random as _r
+        rng = _r.Random(seed)
+        n = rng.choice([1, 1, 2, 2, 3, 3, 4, 5])
+        c = lw.Circuit(n)
+        st = {"U": np.eye(n, dtype=complex), "nloss": 0, "calls": 0}
+
+        def emb_bs(a, b, r, conv, l):
+            E = np.eye(n, dtype=complex)
+            c_, s_ = math.sqrt(r), math.sqrt(1 - r)
+            if conv == "Rx":
+                E[a, a], E[a, b], E[b, a], E[b, b] = c_, 1j * s_, 1j * s_, c_
+            else:
+                E[a, a], E[a, b], E[b, a], E[b, b] = c_, s_, s_, -c_
+            if l is not None:
+                D = np.eye(n, dtype=complex)
+                D[a, a] = D[b, b] = math.sqrt(1 - l)
+                E = D @ E
+            return E, (2 if l is not None else 0)
+
+        def emb_ps(m, phi, l):
+            E = np.eye(n, dtype=complex)
+            E[m, m] = complex(math.cos(phi), math.sin(phi)) * (1 if l is None else math.sqrt(1 - l))
+            return E, (1 if l is not None else 0)
+
+        def emb_loss(m, l):
+            E = np.eye(n, dtype=complex)
+            E[m, m] = math.sqrt(1 - l)
+            return E, 1
+
+        def emb_swaps(sw):
+            P = np.zeros((n, n), dtype=complex)
+            for i in range(n):
+                P[sw.get(i, i), i] = 1
+            return P, 0
+
+        def emb_block(m, V):
+            E = np.eye(n, dtype=complex)
+            k = V.shape[0]
+            E[m:m + k, m:m + k] = V
+            return E, 0
+
+        def num(x):
+            """the same number in another numeric type"""
+            r = rng.random()
+            if x in (0, 1) and r < 0.5:
+                return int(x)
+            if r < 0.7:
+                return float(x)
+            return np.float64(x)
+
+        def unit_value():
+            return rng.choice([0.0, 1.0, 0.5, 0.5, rng.random(), rng.random(), 1e-12, 1 - 1e-12])
+
+        def loss_value():
+            """None = no loss element (argument omitted or literal 0)"""
+            r = rng.random()
+            if r < 0.55:
+                return None
+            return rng.choice([1.0, 0.25, rng.uniform(0.01, 0.99), 1e-9])
+
+        def phase_value():
+            return rng.choice([0, 0.0, math.pi, -math.pi, 2 * math.pi, rng.uniform(-3.2, 3.2), rng.uniform(-40, 40), 1, -3, 1e3, 1e-9])
+
+        def do_bs(tgt, off, a, b, r, conv, l):
+            """one beam splitter through one of the equivalent call forms; tgt sees the modes shifted by -off"""
+            a_, b_ = a - off, b - off
+            forms = ["pos", "kw", "mixed"]
+            if b == a + 1:
+                forms.append("m2default")
+                if r == 0.5 and conv == "Rx" and l is None:
+                    forms += ["alldefault", "alldefault"]
+            if conv == "Rx" and l is None:
+                forms.append("convdefault")
+            if r == 0.5:
+                forms += ["rdefault", "rdefault"]
+            f = rng.choice(forms)
+            lv = 0 if l is None else num(l)
+            if l is None and rng.random() < 0.5:
+                lv = rng.choice([0, 0.0])
+            if f == "alldefault":
+                tgt.bs(a_)
+            elif f == "m2default":
+                tgt.bs(a_, reflectivity=num(r), loss=lv, convention=conv)
+            elif f == "convdefault":
+                tgt.bs(a_, b_, num(r))
+            elif f == "rdefault":
+                tgt.bs(a_, b_, convention=conv, loss=lv)
+            elif f == "pos":
+                tgt.bs(a_, b_, num(r), lv, conv)
+            elif f == "kw":
+                tgt.bs(mode_1=a_, mode_2=b_, reflectivity=num(r), loss=lv, convention=conv)
+            else:
+                tgt.bs(a_, b_, num(r), convention=conv, loss=lv)
+
+        def do_ps(tgt, off, m, phi, l):
+            m_ = m - off
+            if l is None:
+                f = rng.choice(["pos2", "pos3", "kw"])
+                if f == "pos2":
+                    tgt.ps(m_, phi)
+                elif f == "pos3":
+                    tgt.ps(m_, phi, rng.choice([0, 0.0]))
+                else:
+                    tgt.ps(mode=m_, phi=phi)
+            elif rng.random() < 0.5:
+                tgt.ps(m_, phi, num(l))
+            else:
+                tgt.ps(phi=phi, loss=num(l), mode=m_)
+
+        def do_loss(tgt, off, m, l):
+            m_ = m - off
+            if l == 0 and rng.random() < 0.6:
+                tgt.loss(m_)                 # the default: an element that loses nothing, but owns a loss mode
+            elif rng.random() < 0.5:
+                tgt.loss(m_, num(l))
+            else:
+                tgt.loss(loss=num(l), mode=m_)
+
+        def do_swaps(tgt, off, sw):
+            d = {k - off: v - off for k, v in sw.items()}
+            tgt.mode_swaps(d)
+            d.clear()                        # the caller's dictionary is reused afterwards
+            d[0] = 99
+
+        def do_barrier(tgt, off, modes):
+            if modes is None:
+                tgt.barrier()
+            else:
+                lst = [m - off for m in modes]
+                tgt.barrier(lst)
+                lst.append(99)
+                lst[:1] = [98]
+
+        def gen_comp(lo, hi):
+            """abstract component on modes lo..hi-1 (absolute numbering)"""
+            w = hi - lo
+            kinds = ["ps", "ps", "loss", "barrier", "swaps"] + (["bs", "bs", "bs"] if w >= 2 else [])
+            k = rng.choice(kinds)
+            if k == "bs":
+                a = rng.randrange(lo, hi)
+                b = rng.choice([m for m in range(lo, hi) if m != a])
+                if rng.random() < 0.5 and a + 1 < hi:
+                    b = a + 1
+                if rng.random() < 0.2 and a + 1 < hi:
+                    return ("bs", a, a + 1, 0.5, "Rx", None)          # what bs(a) means
+                return ("bs", a, b, unit_value(), rng.choice(["Rx", "H"]), loss_value())
+            if k == "ps":
+                return ("ps", rng.randrange(lo, hi), phase_value(), loss_value())
+            if k == "loss":
+                return ("loss", rng.randrange(lo, hi), rng.choice([0, 0, 1, 0.5, rng.random()]))
+            if k == "barrier":
+                r = rng.random()
+                return ("barrier", None if (r < 0.4 and lo == 0 and hi == n) else ([] if r < 0.6 else rng.sample(range(lo, hi), rng.randint(1, w))))
+            r = rng.random()
+            if r < 0.2:
+                return ("swaps", {})
+            ks = rng.sample(range(lo, hi), rng.randint(1, w))
+            vs = list(ks)
+            rng.shuffle(vs)
+            return ("swaps", dict(zip(ks, vs)))
+
+        def reference(comp):
+            k = comp[0]
+            if k == "bs":
+                return emb_bs(*comp[1:])
+            if k == "ps":
+                return emb_ps(*comp[1:])
+            if k == "loss":
+                return emb_loss(*comp[1:])
+            if k == "swaps":
+                return emb_swaps(comp[1])
+            return np.eye(n, dtype=complex), 0
+
+        def call(tgt, off, comp):
+            k = comp[0]
+            if k == "bs":
+                do_bs(tgt, off, *comp[1:])
+            elif k == "ps":
+                do_ps(tgt, off, *comp[1:])
+            elif k == "loss":
+                do_loss(tgt, off, *comp[1:])
+            elif k == "swaps":
+                do_swaps(tgt, off, comp[1])
+            else:
+                do_barrier(tgt, off, comp[1])
+
+        def record(E, nl):
+            st["U"] = E @ st["U"]
+            st["nloss"] += nl
+            st["calls"] += 1
+
+        def block():
+            k = rng.randint(1, n)
+            m = rng.randint(0, n - k)
+            r = rng.random()
+            if r < 0.3:                      # permutation, int dtype
+                p = list(range(k))
+                rng.shuffle(p)
+                V = np.zeros((k, k), dtype=int)
+                for i, j in enumerate(p):
+                    V[j, i] = 1
+            elif r < 0.55:                   # real rotation / reflection, float dtype
+                V = np.eye(k)
+                if k >= 2:
+                    i, j = rng.sample(range(k), 2)
+                    t = rng.uniform(-3, 3)
+                    V[i, i], V[i, j], V[j, i], V[j, j] = math.cos(t), -math.sin(t), math.sin(t), math.cos(t)
+                else:
+                    V[0, 0] = -1.0
+            else:
+                V = cg.v_to_np(cg.rational_unitary(rng, k))
+            ref = np.array(V, dtype=complex)
+            u = lw.Unitary(V, label=rng.choice(["", "X", "a long label"])) if rng.random() < 0.5 else lw.Unitary(V)
+            V[...] = 0                       # the caller's array is reused afterwards
+            extra = None
+            if rng.random() < 0.3:           # the block circuit is an ordinary circuit: it can be extended before it is added
+                extra = ("ps", m + rng.randrange(k), phase_value(), None)
+                do_ps(u, m, *extra[1:])
+            f = rng.choice(["pos", "kw", "group", "named"] + (["default"] * 3 if m == 0 else []))
+            if f == "default":
+                c.add(u)
+            elif f == "pos":
+                c.add(u, m)
+            elif f == "kw":
+                c.add(circuit=u, mode=m, group=False)
+            elif f == "group":
+                c.add(u, m, True)
+            else:
+                c.add(u, m, group=True, name=rng.choice(["", "blk"]))
+            record(*emb_block(m, ref))
+            if extra:
+                record(*reference(extra))
+
+        def subcircuit():
+            w = rng.randint(1, n)
+            m = rng.randint(0, n - w)
+            sub = lw.Circuit(w)
+            comps = [gen_comp(m, m + w) for _ in range(rng.randint(0, 3))]
+            comps = [x for x in comps if not (x[0] == "barrier" and x[1] is None)]
+            for x in comps:
+                call(sub, m, x)
+            if m == 0 and rng.random() < 0.5:
+                c.add(sub)
+            else:
+                c.add(sub, m, group=rng.random() < 0.5)
+            for x in comps:
+                record(*reference(x))
+
+        def rejected():
+            """a call that must be refused; whatever it raises, nothing may have been recorded"""
+            r = rng.randrange(8)
+            try:
+                if r == 0:
+                    c.bs(0, 0) if n == 1 or rng.random() < 0.5 else c.bs(n - 1)
+                elif r == 1:
+                    c.ps(n, 0.3)
+                elif r == 2:
+                    c.loss(0, rng.choice([1.5, -0.25, 1.001]))
+                elif r == 3 and n >= 2:
+                    c.bs(0, 1, rng.choice([1.5, -0.1]))
+                elif r == 4 and n >= 2:
+                    c.bs(0, 1, 0.5, rng.choice([1.5, -0.1, 2]))
+                elif r == 5:
+                    c.mode_swaps({0: n - 1} if n >= 2 else {0: 1})
+                elif r == 6:
+                    c.add(lw.Unitary(np.eye(n, dtype=complex)), 1)
+                elif r == 7:
+                    c.ps(0, 0.1, rng.choice([3, -0.001]))
+                else:
+                    c.barrier([n])
+            except Exception:  # noqa: BLE001
+                return None
+            return "a call with an out-of-range mode or value was accepted"
+
+        def read(what):
+            exp_dim = n + st["nloss"]
+            for attempt in range(2):
+                Uf = c.U_full
+                if Uf.shape != (exp_dim, exp_dim):
+                    return f"{what}: U_full has shape {Uf.shape}, expected n + #loss = {exp_dim}"
+                if not np.allclose(Uf[:n, :n], st["U"], atol=1e-9, rtol=0):
+                    return (f"{what}: leading block of U_full is not the ordered product of the {st['calls']} components added so far "
+                            f"(max dev {np.abs(Uf[:n, :n] - st['U']).max():.3g}, read #{attempt + 1})")
+                if not np.allclose(Uf @ Uf.conj().T, np.eye(exp_dim), atol=1e-9, rtol=0):
+                    return f"{what}: U_full is not unitary"
+                U = c.U
+                if U.shape != (n, n) or not np.allclose(U, st["U"], atol=1e-9, rtol=0):
+                    return f"{what}: Circuit.U is not the leading block of U_full / the ordered product (read #{attempt + 1})"
+                if c.n_modes != n:
+                    return f"{what}: n_modes = {c.n_modes}, expected {n}"
+                # the caller scribbles over what it was given; the next read must not notice
+                try:
+                    Uf[...] = 7
+                    U[...] = 7
+                except ValueError:
+                    pass                     # a read-only array is fine too
+            return None
+
+        nsteps = rng.randint(1, 9)
+        for i in range(nsteps):
+            r = rng.random()
+            if r < 0.62:
+                x = gen_comp(0, n)
+                call(c, 0, x)
+                record(*reference(x))
+            elif r < 0.76:
+                block()
+            elif r < 0.88:
+                subcircuit()
+            else:
+                msg = rejected()
+                if msg:
+                    return f"step {i}: {msg}"
+            if rng.random() < 0.35:
+                msg = read(f"after call {i + 1} of {nsteps}")
+                if msg:
+                    return msg
+        return read("at the end")
+
     def impl(self, c):
-        if c["kind"] == "param":
-            return {"fail": self._param_scenario(c["seed"])}
+        if c["kind"] in ("param", "forms"):
+            try:
+                return {"fail": (self._param_scenario if c["kind"] == "param" else self._forms_scenario)(c["seed"])}
+            except Exception as e:  # noqa: BLE001  (every call of these scenarios is valid unless wrapped in its own try)
+                return {"fail": f"a valid construction call or a read of U / U_full raised {type(e).__name__}: {e}"}
         if c["kind"] == "tree":
             self._fail = None
 
@@ -274,7 +617,7 @@ class C01:
 
     # the property stated directly on the implementation
     def oracle(self, c, obs):
-        if c["kind"] == "param":
+        if c["kind"] in ("param", "forms"):
             return obs["fail"]
         if c["kind"] == "tree":
             return obs[2]["step"]
@@ -354,7 +697,7 @@ class C01:
         return None
 
     def nontrivial(self, c, obs):
-        if c["kind"] == "param":
+        if c["kind"] in ("param", "forms"):
             return True
         outcomes = obs[0]
         kinds = Counter(op[0] for op, out in zip(c["prog"], outcomes) if "ok" in out and op[0] not in ("new", "unitary"))
